@@ -58,7 +58,7 @@ func Mb(v []types.ByteSequence, hashFunc func(types.ByteSequence) types.OpaqueHa
 
 // Ps: Find the half based on the given index.
 func Ps(v []types.ByteSequence, i types.U32) []types.ByteSequence {
-	mid := types.U32(len(v) / 2)
+	mid := types.U32((len(v) + 1) / 2)
 	if i < mid {
 		return v[:mid] // Left half
 	} else {
@@ -81,7 +81,7 @@ func T(v []types.ByteSequence, i types.U32, hashFunc func(types.ByteSequence) ty
 	if len(v) <= 1 {
 		return output
 	}
-	mid := types.U32(len(v) / 2)
+	mid := types.U32((len(v) + 1) / 2)
 	var siblingHalf []types.ByteSequence
 	var traverseHalf []types.ByteSequence
 	var newIndex types.U32
